@@ -1,11 +1,221 @@
 """C09 — bounded completion, classified errors, first cause wins (machinery: c05.py / connlts.py / connbench.py).
 In addition to the shared pool, every scenario in which the environment falls silent is run on in VIRTUAL TIME until
-nothing is armed any more: every awaited operation must then be finished, within its documented bound."""
+nothing is armed any more: every awaited operation must then be finished, within its documented bound.
+
+Timing correspondence (this file): the real start_connection / finish_connection (noise and plaintext) / disconnect are run
+in virtual time under scripted environments - per guarded wait: answered after d seconds, failed after d seconds, or never
+answered - and the instant and kind of their completion are compared with the Lean timing model (`tm.phase`) and with the
+documented bounds."""
+from __future__ import annotations
+
+import itertools
+from asyncio import tasks
+
+from aioesphomeapi import api_pb2 as pb
+from aioesphomeapi import core
+from aioesphomeapi.connection import APIConnection, ConnectionParams
+from aioesphomeapi.zeroconf import ZeroconfManager
+
 import c05
+import common
 import connlts
+import noisedev
+import simnet
+
+PSK = bytes(range(1, 33))
+
+
+def mk_conn(noise):
+    net = simnet.Net(base=500.0)
+    net.auto_resolve = net.auto_sock = False
+    params = ConnectionParams(addresses=["10.0.0.1"], port=6053, password=None, client_info="verif", keepalive=100000.0,
+                              zeroconf_manager=ZeroconfManager(), noise_psk=noisedev.NoiseDevice.b64(PSK) if noise else None,
+                              expected_name=None)
+    conn = APIConnection(params, lambda e: None, common.debug_flip(), "verif")
+    return net, conn
+
+
+class Stamp:
+    def __init__(self, loop, coro):
+        self.loop, self.t0, self.t1 = loop, loop.time(), None
+        self.task = tasks._PyTask(coro, loop=loop, eager_start=True)
+        if self.task.done():
+            self.t1 = loop.time()
+        else:
+            self.task.add_done_callback(lambda _t: setattr(self, "t1", loop.time()))
+
+    def ending(self):
+        t = self.task
+        if not t.done():
+            return None
+        if t.cancelled():
+            return "raw:CancelledError"
+        e = t.exception()
+        if e is None:
+            return "success"
+        if isinstance(e, core.TimeoutAPIError) or "imeout" in type(e).__name__:
+            return "timeout"
+        return "failed" if isinstance(e, core.APIConnectionError) else "raw:" + type(e).__name__
+
+
+def adv(net, dt):
+    net.loop.advance(dt)
+
+
+def run_start(script):
+    net, conn = mk_conn(False)
+    loop = net.loop
+    st = Stamp(loop, conn.start_connection())
+    loop.run_idle()
+    stages = [("resolve", net.complete_resolve), ("sock", net.complete_sock)]
+    for (name, complete), (o, d) in zip(stages, script):
+        if st.task.done() or o == "silent":
+            break
+        adv(net, d)
+        if st.task.done():
+            break
+        complete(OSError(111, "refused") if o == "err" else None)
+        loop.run_idle()
+    if not st.task.done():
+        adv(net, 500.0)
+    res = (st.t1 - st.t0 if st.t1 is not None else None, st.ending())
+    for t in [st.task]:
+        if t.done() and not t.cancelled():
+            t.exception()
+    net.close()
+    return res
+
+
+def run_finish(script, noise):
+    net, conn = mk_conn(noise)
+    loop = net.loop
+    s0 = Stamp(loop, conn.start_connection())
+    loop.run_idle(); net.complete_resolve(); loop.run_idle(); net.complete_sock(); loop.run_idle()
+    assert s0.ending() == "success", s0.ending()
+    st = Stamp(loop, conn.finish_connection(login=False))
+    loop.run_idle()
+    dev = None
+    # wait 1: readiness of the frame helper (noise: the device's hello + handshake frames; plaintext: immediate)
+    (o1, d1), (o2, d2) = (script + [("silent", 0), ("silent", 0)])[:2]
+    ok1 = False
+    if noise:
+        if o1 != "silent":
+            adv(net, d1)
+            if not st.task.done():
+                if o1 == "ok":
+                    dev = noisedev.NoiseDevice(PSK, b"dev")
+                    dev.read_client_hello(b"".join(d for _, d in net.tr.writes))
+                    net.feed(noisedev.frame(dev.hello_body()) + noisedev.frame(dev.handshake_body()))
+                    ok1 = True
+                else:
+                    net.tr._call_connection_lost(ConnectionResetError(104, "reset"))
+                loop.run_idle()
+    else:
+        ok1 = True
+    if ok1 and not st.task.done() and o2 != "silent":
+        adv(net, d2)
+        if not st.task.done():
+            if o2 == "ok":
+                hello = pb.HelloResponse(api_version_major=1, api_version_minor=10, name="dev", server_info="x")
+                if noise:
+                    net.feed(noisedev.frame(dev.seal(noisedev.inner(2, hello.SerializeToString()))[0]))
+                else:
+                    net.send(hello)
+            else:
+                net.tr._call_connection_lost(ConnectionResetError(104, "reset"))
+            loop.run_idle()
+    if not st.task.done():
+        adv(net, 500.0)
+    res = (st.t1 - st.t0 if st.t1 is not None else None, st.ending())
+    for t in [s0.task, st.task]:
+        if t.done() and not t.cancelled():
+            t.exception()
+    net.close()
+    return res
+
+
+def run_disc(script):
+    net, client, conn, _ = simnet.established(keepalive=100000.0)
+    loop = net.loop
+    st = Stamp(loop, conn.disconnect())
+    loop.run_idle()
+    (o, d) = (script + [("silent", 0)])[0]
+    if o != "silent":
+        adv(net, d)
+        if not st.task.done():
+            if o == "ok":
+                net.send(pb.DisconnectResponse())
+            else:
+                net.tr._call_connection_lost(ConnectionResetError(104, "reset"))
+            loop.run_idle()
+    if not st.task.done():
+        adv(net, 500.0)
+    # disconnect() itself never raises: a missing answer or a lost connection still ends in a closed connection
+    res = (st.t1 - st.t0 if st.t1 is not None else None, st.ending())
+    if st.task.done() and not st.task.cancelled():
+        st.task.exception()
+    net.close()
+    return res
+
+
+def timing(ck):
+    rng, thorough = ck.rng, ck.tier == "thorough"
+    lines, impl, meta = [], [], []
+    delays = {"start": [[0, 1, 29, 30, 31], [0, 5, 59, 60, 61]], "finish": [[0, 2, 29, 30, 45], [0, 3, 29, 30, 31]], "disc": [[0, 4, 9, 10, 11]]}
+    outcomes = ["ok", "err", "silent"]
+    for kind in ("start", "finish-noise", "finish-plain", "disc"):
+        base = kind.split("-")[0]
+        per = []
+        for i, ds in enumerate(delays[base]):
+            if kind == "finish-plain" and i == 0:
+                per.append([("ok", 0)])       # a plaintext helper is ready at once: the first wait is answered at 0
+                continue
+            per.append([(o, d) for o in outcomes for d in (ds if o != "silent" else [0])])
+        scripts = list(itertools.product(*per))
+        if not thorough:
+            rng.shuffle(scripts)
+            scripts = scripts[:40]
+        for sc in scripts:
+            sc = list(sc)
+            if kind == "start":
+                dur, end = run_start(sc)
+            elif kind == "disc":
+                dur, end = run_disc(sc)
+            else:
+                dur, end = run_finish(sc, noise=kind == "finish-noise")
+            toks = " ".join(f"{o}:{d}" if o != "silent" else "silent" for o, d in sc)
+            lines.append(f"tm.phase {base} 0 {toks}")
+            impl.append((dur, end))
+            meta.append((kind, sc))
+    out = common.run_driver(lines)
+    bounds = {"start": 90.0, "finish": 60.0, "disc": 10.0}
+    n = 0
+    for l, m, (dur, end), (kind, sc) in zip(lines, out or [], impl, meta):
+        n += 1
+        base = kind.split("-")[0]
+        rep = {"operation": kind, "script": sc, "observed_duration": dur, "observed_ending": end}
+        if dur is None:
+            ck.violation(f"c09:hang:{kind}", f"{kind} under script {sc} never completed (virtual time ran 500 s on)", rep)
+            continue
+        if dur > bounds[base] + 1e-6:
+            ck.violation(f"c09:late:{kind}", f"{kind} under script {sc} completed after {dur:.3f} s, documented bound {bounds[base]} s", rep)
+        if end.startswith("raw"):
+            ck.violation(f"c09:raw:{kind}:{end}", f"{kind} under script {sc} let {end} escape", rep)
+        mt, mend = m.split(" ")
+        # disconnect() swallows the outcome of its wait: only the instant is compared; a timeout surfaces under different
+        # library classes (ResolveAPIError for the resolver, TimeoutAPIError elsewhere): compared as success / no success
+        same_end = True if base == "disc" else ((mend == "success") == (end == "success"))
+        if abs(float(mt) - dur) > 1e-6 or not same_end:
+            ck.disagreement("timing model != implementation", {**rep, "model": m})
+    return n
 
 
 def run(ck):
     c05.run(ck, spec=lambda obs, lines, info: connlts.spec_c09(obs, lines, info),
             keys=("st", "fatal", "start", "finish", "disc"),
             what="connection LTS != implementation (error/outcome projection)", pid="C09", timed=True)
+    n = timing(ck)
+    ck.coverage["timing_scripts_compared"] = n
+    ck.assumptions += ["timing scripts: one address, delays on a grid around each guard (0, small, bound-1, bound, bound+1); "
+                       "disconnect is timed on an established session (its wait for a finish phase in progress is covered by the "
+                       "shared pool and the bound check only)"]
